@@ -349,7 +349,7 @@ class QuantityTableCoordinate(BaseTableCoordinate):
             dwd["world_axis_physical_types"].append(self.frame.axis_physical_types[i])
             dwd["world_axis_units"].append(table.unit.to_string())
             dwd["world_axis_object_components"].append((f"quantity{i}", 0, "value"))
-            dwd["world_axis_object_classes"].update({f"quantity{i}": (u.Quantity, tuple(), {"unit", table.unit.to_string()})})
+            dwd["world_axis_object_classes"].update({f"quantity{i}": (u.Quantity, tuple(), {"unit": table.unit.to_string()})})
             return
 
         new_components["tables"].append(table[item])
